@@ -37,6 +37,7 @@ def parse : List String → Option Ev
   | ["backoff"] => some .backoff
   | ["resume", sid, "ok"] => some (.resume (nat sid) .ok)
   | ["resume", sid, "refused"] => some (.resume (nat sid) .refused)
+  | ["resume", sid, "conflict"] => some (.resume (nat sid) .ok)   -- a conflict is no answer: the stream asks again and is accepted
   | ["closestream", sid] => some (.closeStream (nat sid))
   | ["close"] => some .close
   | ["close", _] => some .close
